@@ -4,7 +4,10 @@ mod drv;
 mod explore;
 mod kit;
 mod oracles;
+mod bfs;
 mod props_paths;
+mod props_prm;
+mod props_tree;
 mod refspace;
 mod report;
 mod scen;
@@ -32,6 +35,8 @@ fn main() {
             };
             match prop {
                 "C01" | "C02" | "C03" | "C04" | "C05" => props_paths::run(prop, tier),
+                "C15" | "C16" | "C17" => props_tree::run(prop, tier),
+                "C18" => props_prm::run(tier),
                 _ => usage(),
             }
         }
@@ -42,6 +47,8 @@ fn main() {
             let r = &v["replay"];
             match r["kind"].as_str() {
                 Some("paths") => props_paths::replay(r),
+                Some("tree") => props_tree::replay_file(r),
+                Some("prm") => props_prm::replay_file(r),
                 _ => usage(),
             }
         }
